@@ -12,6 +12,8 @@ use std::collections::BTreeSet;
 use std::fmt::Write as FmtWrite;
 
 pub const NOVAL: i64 = -999999;
+/// arenas above this size are reported by their size only (a snapshot would be hundreds of MB)
+pub const MAX_SNAPSHOT_SLOTS: usize = 50_000;
 
 /// one interface over the four (x payload types) collections; keys and payloads as integers
 pub trait OrdColl: Sized {
@@ -127,6 +129,10 @@ impl<P: Payload> OrdColl for MapTree<OKey, P> {
     }
     fn snap_json(&self) -> String {
         let s = self.verif_snapshot();
+        if s.nodes.len() > MAX_SNAPSHOT_SLOTS {
+            // resource cut-off, not a verdict: the size itself is logged and judged by TLC
+            return format!("\"arena\":{{\"slots\":{},\"free\":{}}}", s.nodes.len(), s.unused.len());
+        }
         let mut o = String::with_capacity(64 + 40 * s.nodes.len());
         snap_head(&mut o, s.root);
         for (i, n) in s.nodes.iter().enumerate() {
@@ -250,6 +256,10 @@ impl<P: Payload> OrdColl for SetTree<OKey, PV<P>> {
     }
     fn snap_json(&self) -> String {
         let s = self.verif_snapshot();
+        if s.nodes.len() > MAX_SNAPSHOT_SLOTS {
+            // resource cut-off, not a verdict: the size itself is logged and judged by TLC
+            return format!("\"arena\":{{\"slots\":{},\"free\":{}}}", s.nodes.len(), s.unused.len());
+        }
         let mut o = String::with_capacity(64 + 40 * s.nodes.len());
         snap_head(&mut o, s.root);
         for (i, n) in s.nodes.iter().enumerate() {
@@ -317,6 +327,10 @@ impl OrdColl for SetTree<i32, i32> {
     }
     fn snap_json(&self) -> String {
         let s = self.verif_snapshot();
+        if s.nodes.len() > MAX_SNAPSHOT_SLOTS {
+            // resource cut-off, not a verdict: the size itself is logged and judged by TLC
+            return format!("\"arena\":{{\"slots\":{},\"free\":{}}}", s.nodes.len(), s.unused.len());
+        }
         let mut o = String::with_capacity(64 + 40 * s.nodes.len());
         snap_head(&mut o, s.root);
         for (i, n) in s.nodes.iter().enumerate() {
